@@ -674,9 +674,13 @@ class Interp:
         return True
 
     def x_Global(self, s, st):
+        # `global name` inside a function of the analysed package: the function keeps something at module level
+        # between calls (a memo, a counter, a "last seen" record) - results may depend on earlier calls
+        self.event("shape-conflict", s, st, what="hidden state: a function rebinds a module-level variable (`global`): it survives from call to call", a=tuple(s.names), b="module global")
         return True
 
-    x_Nonlocal = x_Global
+    def x_Nonlocal(self, s, st):
+        return True
 
     def x_Assert(self, s, st):
         c = self.eval(s.test, st)
